@@ -40,6 +40,15 @@ NamingShapes == <<
   Single("n.json.omit", Json(Fld("Str", 1, "string"), ",omitempty")),
   Single("n.json.name", Json(Fld("Str", 1, "string"), "jname")),
   Single("n.json.nameomit", Json(Fld("FooBar", 1, "string"), "jname,omitempty")),
+  \* SEVERAL fields of one message tagged "-" (declared in it and flattened in from an embedded message): each falls back to
+  \* its own snake_case name
+  With("n.json.dash2", <<Msg("Inner", <<Json(Fld("Flag", 1, "bool"), "-"), Fld("Zed", 2, "string")>>, <<>>),
+                         Msg("Root", <<Json(Fld("Str", 1, "string"), "-"), Json(Fld("Raw", 2, "bytes"), "-,omitempty"), Fld("Num", 3, "int32"),
+                                       NonNull(Embed(MsgF("Inner", 4, "Inner")))>>, <<>>)>>, BaseCfg),
+  \* names with dashes, from a json tag and from name_overrides, at the top and in a nested message
+  With("n.kebab", <<Msg("Leaf", <<Json(Fld("Str", 1, "string"), "burst-size,omitempty"), Fld("Num", 2, "int32")>>, <<>>),
+                    Msg("Root", <<Json(Fld("FooBar", 1, "string"), "max-age"), Fld("Num", 2, "int64"), MsgF("Sub", 3, "Leaf"), Rep(MsgF("Subs", 4, "Leaf"))>>, <<>>)>>,
+       Ovr(<<KV("Root.Num", "x-trace-id")>>)),
   With("n.ovr.path", <<Msg("Root", <<Fld("Str", 1, "string")>>, <<>>)>>, Ovr(<<KV("Root.Str", "ovr_path")>>)),
   With("n.ovr.path.json", <<Msg("Root", <<Json(Fld("Str", 1, "string"), "jname")>>, <<>>)>>, Ovr(<<KV("Root.Str", "ovr_path")>>)),
   With("n.ovr.tn", <<Leaf, Msg("Root", <<MsgF("Sub", 1, "Leaf"), MsgF("Sub2", 2, "Leaf")>>, <<>>)>>, Ovr(<<KV("Leaf.Str", "ovr_tn")>>)),
